@@ -288,6 +288,17 @@ class Epoch:
                             mm.append(('value', f'{node} of {rc} holds {tree!r}, reference value is {m.ref(d)!r}'))
                     if held_real != bool(held_exp):
                         mm.append(('held', f"{node} of {rc}: held={held_real}, spec says {bool(held_exp)}"))
+                        if kind == 'mem' and held_exp and not held_real and d not in es['forced']:
+                            # an in-memory result has no other place than its object: the behaviour has diverged anyway,
+                            # so ask for the value once and OBSERVE whether the computation is executed a second time
+                            n0 = len(gen.RUNLOG)
+                            try:
+                                _ = t.value
+                            except Exception:  # noqa
+                                pass
+                            if any(e['obj'] == id(t) for e in gen.RUNLOG[n0:]):
+                                mm.append(('runs', f"in-memory task {node} of {rc} had run and its object had the value; after "
+                                                   f"{act['name']} the object lost it and the next request executed run again"))
                     # the flag is behaviourally observable only while nothing is held (it decides load vs run)
                     if not held_real and not held_exp and bool(t.is_forced) != (d in es['forced']):
                         mm.append(('forced', f"{node} of {rc}: is_forced={t.is_forced}, spec says {d in es['forced']}"))
